@@ -820,7 +820,8 @@ Record obs := mkObs {
 Definition str_sum (s : list N) : N :=
   fold_left (fun h b => (h * 257 + b + 1) mod 2305843009213693951) s 0.
 
-Inductive hcall := CSetOp (i : nat) (p : Z) | CGetOp (i : nat) | CKeysOp | CClearOp.
+Inductive hcall := CSetOp (i : nat) (p : Z) | CGetOp (i : nat) | CKeysOp | CClearOp
+                 | CSetGOp (i : nat) (p : Z) | CGetGOp (i : nat).     (* the key as it came out of the gob decoder *)
 Inductive hret := RNone | RGet (r : option Z) | RKeys (ks : list nat).   (* keys as indices into the case's values *)
 
 Fixpoint list_eqb {A} (eq : A -> A -> bool) (l l' : list A) : bool :=
@@ -837,21 +838,28 @@ Definition opt_eqb {A} (eq : A -> A -> bool) (a b : option A) : bool :=
   | _, _ => false
   end.
 
-Fixpoint run_hcalls (reps : list value) (h : hmap Z) (ops : list (hcall * hret)) : bool :=
+Fixpoint run_hcalls (reps greps : list value) (h : hmap Z) (ops : list (hcall * hret)) : bool :=
   match ops with
   | [] => true
   | (c, r) :: rest =>
       match c, r with
-      | CSetOp i p, RNone => run_hcalls reps (hm_set h (nth i reps VDefault) p) rest
-      | CGetOp i, RGet o => opt_eqb Z.eqb (hm_get h (nth i reps VDefault)) o && run_hcalls reps h rest
-      | CKeysOp, RKeys ks => list_eqb veqb (hm_keys h) (map (fun i => nth i reps VDefault) ks) && run_hcalls reps h rest
-      | CClearOp, RNone => run_hcalls reps (hm_clear h) rest
+      | CSetOp i p, RNone => run_hcalls reps greps (hm_set h (nth i reps VDefault) p) rest
+      | CGetOp i, RGet o => opt_eqb Z.eqb (hm_get h (nth i reps VDefault)) o && run_hcalls reps greps h rest
+      | CSetGOp i p, RNone => run_hcalls reps greps (hm_set h (nth i greps VDefault) p) rest
+      | CGetGOp i, RGet o => opt_eqb Z.eqb (hm_get h (nth i greps VDefault)) o && run_hcalls reps greps h rest
+      (* Keys() returns the stored Values: named by index, +1000 for a decoded one *)
+      | CKeysOp, RKeys ks => list_eqb veqb (hm_keys h)
+                               (map (fun i => if Nat.ltb i 1000 then nth i reps VDefault else nth (i - 1000) greps VDefault) ks)
+                             && run_hcalls reps greps h rest
+      | CClearOp, RNone => run_hcalls reps greps (hm_clear h) rest
       | _, _ => false
       end
   end.
 
+Definition gob_rep (o : obs) : cval := match o_gob o with GobRep g => g | _ => o_rep o end.
+
 (* codes of the checks that fail on a case (empty = model and implementation agree) *)
-Definition check_case (vs : list obs) (eqm : list (list bool)) (ops : list (hcall * hret)) : list nat :=
+Definition check_case (vs : list obs) (eqm geqm : list (list bool)) (ops : list (hcall * hret)) : list nat :=
   let reps := map o_rep vs in
   (if forallb (fun o => rep_okb (strip (o_rep o)) && cokb (o_rep o)) vs then [] else [1%nat]) ++
   (if forallb (fun o => match o_in o with
@@ -869,18 +877,23 @@ Definition check_case (vs : list obs) (eqm : list (list bool)) (ops : list (hcal
                         | GobRep g => veqb (canon (strip g)) (canon (strip (o_rep o))) && rep_okb (strip g)
                                       && (HashC g =? o_gob_hash o)
                         | GobFail => false end) vs then [] else [6%nat]) ++
-  (if run_hcalls (map strip reps) hm_new ops then [] else [7%nat]) ++
+  (if run_hcalls (map strip reps) (map (fun o => strip (gob_rep o)) vs) hm_new ops then [] else [7%nat]) ++
   (* the printed form (equal to the implementation's String() by check 5) parses back to the value *)
   (if forallb (fun o => negb (printable_val (strip (o_rep o)))
                         || match parse (print (strip (o_rep o))) with
                            | Some v' => veqb v' (strip (o_rep o))
-                           | None => false end) vs then [] else [8%nat]).
+                           | None => false end) vs then [] else [8%nat]) ++
+  (* decoded values compared with every original (only when observed) *)
+  (match geqm with
+   | [] => []
+   | _ => if list_eqb (list_eqb Bool.eqb) (map (fun o => map (fun b => EqualC (gob_rep o) b) reps) vs) geqm then [] else [9%nat]
+   end).
 
-Definition case := (list obs * list (list bool) * list (hcall * hret))%type.
+Definition case := (list obs * list (list bool) * list (list bool) * list (hcall * hret))%type.
 
 Fixpoint mismatches_from (i : nat) (cases : list case) : list nat :=
   match cases with
   | [] => []
-  | (vs, eqm, ops) :: rest =>
-      map (fun c => (10 * i + c)%nat) (check_case vs eqm ops) ++ mismatches_from (S i) rest
+  | (vs, eqm, geqm, ops) :: rest =>
+      map (fun c => (10 * i + c)%nat) (check_case vs eqm geqm ops) ++ mismatches_from (S i) rest
   end.
